@@ -124,7 +124,9 @@ def writer_check(ctx, case, gt, sp, share=None):
         from .. import world
         loaded = irio.load(gt, raw)
         nodes_l = {n.uuid.hex: n for n in world.reachable(gt, loaded)}
-        sp3, edits = irbuild.mutate_live(rnd, gt, sp, nodes_l, {},
+        sp3, edits = irbuild.mutate_live(rnd, gt, sp, nodes_l,
+                                         irbuild.loaded_aux_values(
+                                             rnd, gt, loaded),
                                          rnd.randint(1, 4))
         if edits:
             actual3 = irio.message_data(gt, irio.save(loaded))
